@@ -672,7 +672,7 @@ func TestC12(t *testing.T) {
 		}
 	}
 	run.Exhaustive(fmt.Sprintf("the valid (cause, variant, state, will QoS, retain) matrix: %d combinations (%d in this shard)", idx, n))
-	run.Rapid(t, "traffic", ev.Pick(150, 20000), func(rt *rapid.T) {
+	run.Rapid(t, "traffic", ev.Pick(400, 20000), func(rt *rapid.T) {
 		var c *Case
 		for {
 			c = &Case{Cause: rapid.SampledFrom(causes).Draw(rt, "cause"), State: rapid.SampledFrom(states).Draw(rt, "state")}
